@@ -105,6 +105,13 @@ func evalC04(t *tm.Term, S []string, allKeys bool, r *core.Result) string {
 		_ = sdU
 		var verboseU string
 		tm.AtU(S, func() { verboseU = fmt.Sprintf("%+v", errors.Formattable(d)) })
+		if _, isFormatter := d.(fmt.Formatter); isFormatter && tm.IsOpaque(d) {
+			var direct string
+			tm.AtU(S, func() { direct = fmt.Sprintf("%+v", d) })
+			if direct != verboseU {
+				return fail("verbose-direct-at-U|"+typeTail(fmt.Sprintf("%T", d)), "%%+v of the opaque error itself differs from its rendering through Formattable at the unknowing process:\n%s\n-- vs --\n%s", short(direct), short(verboseU))
+			}
+		}
 		for i, n := range nodesU {
 			if !tm.IsOpaque(n) {
 				continue
@@ -189,10 +196,10 @@ func evalC04Ubar(t *tm.Term) string {
 }
 
 func runC04(c *core.Ctx, r *core.Result) {
-	p := plan{fullDepth: 2, coreDepth: 3, strDepth: 2, alphabet: tm.REGE}
+	p := plan{dupDepth: 2, fullDepth: 2, coreDepth: 3, strDepth: 2, alphabet: tm.REGE}
 	subsetDepth := 2
 	if c.Thorough() {
-		p = plan{fullDepth: 3, coreDepth: 4, strDepth: 2, alphabet: tm.REGE}
+		p = plan{dupDepth: 2, fullDepth: 3, coreDepth: 4, strDepth: 2, alphabet: tm.REGE}
 		subsetDepth = 3
 	}
 	r.Bounds = fmt.Sprintf("%s; for each tree every subset S of the wire's type keys (all 2^n for depth<=%d and n<=8, else {all, singletons}) as 'unknown at the intermediary'; plus the intermediary that cannot unmarshal any payload; history origin -> U(S) -> K compared with origin -> K", p, subsetDepth)
